@@ -225,7 +225,7 @@ theorem nextExpect_spec (buf : Buf) (pos : Nat) (expected : List UInt8) (h : pos
     · left; simp [hc]
 
 /-- `Lexer::next_stream`: the `end - word.len()` subtraction cannot underflow, the slice is in range -/
-theorem nextStream_spec (buf : Buf) (pos : Nat) (h : pos ≤ buf.size) :
+theorem nextStream_cases (buf : Buf) (pos : Nat) (h : pos ≤ buf.size) :
     nextStream buf pos = .err ∨ ∃ p, nextStream buf pos = .ok p ∧ pos < p ∧ p ≤ buf.size := by
   unfold nextStream
   rcases nextWord_spec buf pos h with he | ⟨w, hw, h1, h2, h3⟩
